@@ -27,17 +27,18 @@ ASSUMPTIONS = [
     "bounded liveness is evaluated graceful_timeout + 5 simulated seconds after the last HUP was handled; stub workers obey TERM "
     "after finishing the request they are serving",
     "timeout is 30 s so the inactivity scan never interferes",
-    "the real GeventWorker.run() executes on a shim of the gevent primitives (simkit/gevent_shim.py); the eventlet run() loop is NOT executed",
+    "the real GeventWorker.run() executes on a shim of the gevent primitives (simkit/gevent_shim.py)",
+    "the real EventletWorker.run(), _eventlet_serve and _eventlet_stop execute on a shim of the eventlet primitives they use (simkit/eventlet_shim.py: spawn/GreenThread kill-wait-link, GreenPool, GreenSocket accept, sleep, Timeout, StopServe); real eventlet hub scheduling order is not modelled beyond 'one green thread runs until it blocks'",
 ]
 COMPONENTS = {"real": ["Arbiter.handle_hup/reload/manage_workers/spawn_worker/kill_worker/reap_workers", "BaseApplication.reload/do_load_config",
                        "Pidfile (reload path)", "family full: SyncWorker / ThreadWorker run loops and handlers"],
               "stub": ["kernel", "family stub: worker run loop", "clients"],
-              "shim": ["gevent primitives (simkit.gevent_shim)"], "not_covered": ["geventlet"]}
+              "shim": ["gevent primitives (simkit.gevent_shim)", "eventlet primitives (simkit.eventlet_shim)"], "not_covered": ["real gevent/eventlet hubs"]}
 
 
 def make_case(index, rng, tier):
     fam = "full" if index % 4 == 3 else "stub"
-    kind = rng.choice(["sync", "gthread", "gevent"]) if fam == "full" else "stub"
+    kind = rng.choice(["sync", "gthread", "gevent", "eventlet"]) if fam == "full" else "stub"
     hups = []
     t = 0.0
     for i in range(rng.randrange(1, 4)):
